@@ -279,3 +279,52 @@ void h_ckpt_take_restore(void)
 	VCANARY("h_ckpt_take_restore reachable");
 	VCOVER(grow && n_ar == 1 && x_live, "h_ckpt_take_restore covers growth to a second arena after the checkpoint");
 }
+
+/* model_allocator_checkpoint_restore: which checkpoint is chosen (log scan), what is released, what the table becomes.
+ * No arena here (the per-arena part is h_ckpt_take_restore): logs of <= NLOGS entries with arbitrary references. */
+void h_restore_scan(void)
+{
+	VIN(unsigned, n_logs);
+	VIN_ARR(array_count_t, in_ref, NLOGS);
+	VIN_ARR(uint32_t, in_size, NLOGS);
+	VIN(array_count_t, target);
+	VIN(unsigned, g);
+	VASSUME(n_logs >= 1 && n_logs <= NLOGS && g < n_logs);
+	arena_used = 0;
+	ck_used = 0;
+	n_released = 0;
+	current_lp = &the_lp;
+	struct mm_state *S = &the_lp.mm_state;
+	S->buddies.items = arena_ptr;
+	S->buddies.capacity = NA + 2;
+	S->buddies.count = 0;
+	S->logs.items = log_store;
+	S->logs.capacity = NLOGS + 2;
+	S->logs.count = n_logs;
+	struct mm_checkpoint *cks[NLOGS];
+	for(unsigned k = 0; k < NLOGS; k++)
+		if(k < n_logs) {
+			cks[k] = malloc(64);
+			cks[k]->ckpt_size = in_size[k];
+			log_store[k].ref_i = in_ref[k];
+			log_store[k].c = cks[k];
+			VASSUME(k == 0 || in_ref[k - 1] <= in_ref[k]); /* references never decrease along the table */
+		}
+	VASSUME(in_ref[0] <= target); /* C13: a checkpoint not after the target exists */
+	array_count_t r = model_allocator_checkpoint_restore(S, target);
+	unsigned sel = 0;
+	for(unsigned k = 0; k < NLOGS; k++)
+		if(k < n_logs && in_ref[k] <= target)
+			sel = k; /* the newest checkpoint not after the target */
+	VASSERT(r == in_ref[sel] && r <= target, "C05.restore_scan the state is restored from the newest checkpoint not after the rollback point");
+	VASSERT(array_count(S->logs) == sel + 1, "C05.restore_scan the log table is cut right after the checkpoint used");
+	VASSERT(S->full_ckpt_size == in_size[sel], "C05.restore_scan the size accounting is taken from the checkpoint used");
+	bool was_released = false;
+	for(unsigned i = 0; i < 8; i++)
+		if(i < n_released && released[i] == (void *)cks[g])
+			was_released = true;
+	VASSERT(was_released == (g > sel), "C05.restore_scan exactly the checkpoints taken after the rollback point are released (once each)");
+	VASSERT(n_released == n_logs - 1 - sel, "C05.restore_scan nothing else is released");
+	VCANARY("h_restore_scan reachable");
+	VCOVER(n_logs == 3 && sel == 1 && in_ref[1] < target, "h_restore_scan covers a rollback point strictly between two checkpoints");
+}
